@@ -99,6 +99,8 @@ def _draw_ambient():
         "thread_hop": ("thread_hop" in AMB.dims and r.random() < 0.04 and AMB.hop_budget > 0),
         # boolean options spelled 1 / 0 instead of True / False
         "truthy": ("truthy" in AMB.dims and r.random() < 0.2),
+        # constructor options passed by position (in the published order) instead of by keyword
+        "positional": ("truthy" in AMB.dims and r.random() < 0.2),
     }
     AMB.last = a
     if a["thread_hop"]:
@@ -141,6 +143,22 @@ def _apply_ambient(W, ws_kwargs, manage_trace=True):
         if a["warn_error"]:
             warnings.simplefilter("error")
     return kw, bool(a["tls"])
+
+
+# the constructor's published parameter order (README / docstring of the pinned release)
+WS_POSITIONAL = ("get_mask_key", "sockopt", "sslopt", "fire_cont_frame", "enable_multithread", "skip_utf8_validation", "dispatcher")
+WS_DEFAULTS = {"get_mask_key": None, "sockopt": None, "sslopt": None, "fire_cont_frame": False, "enable_multithread": True, "skip_utf8_validation": False, "dispatcher": None}
+
+
+def make_ws(W, ws_kwargs):
+    """WebSocket(**ws_kwargs) - or, under the ambient draw "positional", the same options passed by position in the published order."""
+    kw = dict(ws_kwargs or {})
+    if AMB.on and AMB.last and AMB.last.get("positional") and kw and set(kw) <= set(WS_POSITIONAL):
+        last = max(WS_POSITIONAL.index(k) for k in kw)
+        args = [kw.get(k, WS_DEFAULTS[k]) for k in WS_POSITIONAL[: last + 1]]
+        AMB.counts["positional_constructions"] = AMB.counts.get("positional_constructions", 0) + 1
+        return W.WebSocket(*args)
+    return W.WebSocket(**kw)
 
 
 class InjectedInterrupt(KeyboardInterrupt):
@@ -273,7 +291,7 @@ def connected_ws(after=b"", cuts=None, timeout=None, on_bytes=None, on_open=None
     peer = HandshakePeer(conn, after=after, cuts=cuts, on_bytes=on_bytes, on_open=on_open)
     if amb_tls:
         so = net.SimTLSSocket(so)
-    w = W.WebSocket(**(ws_kwargs or {}))
+    w = make_ws(W, ws_kwargs)
     if timeout is not None:
         so.settimeout(timeout)
         w.sock_opt.timeout = timeout
@@ -361,7 +379,7 @@ def run_recv_script(stream, script, segs=None, ending="eof", ws_kwargs=None, tim
     if tls:
         # the transport is a TLS socket (one segment = one record; would-block shows as SSLWantReadError)
         so = net.SimTLSSocket(so)
-    w = W.WebSocket(**(ws_kwargs or {}))
+    w = make_ws(W, ws_kwargs)
     so.settimeout(timeout)
     w.sock_opt.timeout = timeout
     state = {}
